@@ -206,7 +206,15 @@ fn apply(base: &[u32], alt: &[(usize, u32)]) -> Vec<u32> {
 fn c08_one(ctx: &Ctx, st: &mut Local, eng: &str, idx: u64, d: &[u8], v: &[u32], counts: &mut [u64; 3]) {
     match caught(|| ctx.cur.roundtrip_with_params(d, v)) {
         Err(p) => st.violation(ctx.viol(eng, idx, "panic", Some(p.loc.clone()), format!("params {:?}: {}", v, p.msg), d)),
-        Ok(Err(_)) => counts[1] += 1,
+        Ok(Err(e)) => {
+            // Err is fine when *producing* the corrections fails; corrections that were produced but
+            // cannot be decoded are a violation
+            match caught(|| ctx.cur.corrections_with_params(d, v)) {
+                Ok(Ok(_)) => st.violation(ctx.viol(eng, idx, "corrections-produced-but-not-decodable", None,
+                    format!("params {:?}: corrections were produced, reconstruction from them fails: {}", v, first_line(&e.msg)), d)),
+                _ => counts[1] += 1,
+            }
+        }
         Ok(Ok((re, consumed, _csize, reread))) => {
             if consumed > d.len() || re[..] != d[..consumed] {
                 st.violation(ctx.viol(eng, idx, "reconstruction-differs", None,
@@ -330,6 +338,37 @@ pub fn run_c08(ctx: &Ctx, st: &mut Local) {
     let texts: Vec<(usize, usize)> = if ctx.quick() { vec![(1, 700), (9, 2400)] } else { vec![(1, 3000), (9, 6000), (5, 70_000)] };
     let mut g = |st: &mut Local, e: &str, i: u64, c: &StreamCase, _k: &Comp| f(st, e, i, c);
     e6_compgrid(ctx, "E6xE13", &comps, &texts, st, &mut g);
+    // long streams with thousands of block boundaries: the estimator's vector and a light menu only
+    {
+        let menus2 = field_menus();
+        let mut light = |st: &mut Local, eng: &str, idx: u64, c: &StreamCase, _k: &Comp| {
+            let d = &c.bytes;
+            let est = match caught(|| ctx.cur.estimate(d)) {
+                Ok(Ok(v)) => v,
+                _ => {
+                    st.outcome(eng, "no-estimate");
+                    return;
+                }
+            };
+            let mut base = est.clone();
+            normalise(&mut base);
+            let mut counts = [0u64; 3];
+            c08_one(ctx, st, eng, idx, d, &base, &mut counts);
+            for fi in [9usize, 10, 2] {
+                for alt in menus2[fi].iter().step_by(3) {
+                    let v = apply(&base, alt);
+                    if v != base {
+                        c08_one(ctx, st, eng, idx, d, &v, &mut counts);
+                    }
+                }
+            }
+            let e = st.eng(eng);
+            e.traces += counts[0] + counts[1];
+            *e.outcomes.entry("reconstructed-exactly-and-parameters-reread".into()).or_insert(0) += counts[0];
+            *e.outcomes.entry("rejected-with-Err".into()).or_insert(0) += counts[1];
+        };
+        e6_compgrid(ctx, "E6blocksxE13light", &lazy_small_block_comps(true), &lazy_small_block_texts(true), st, &mut light);
+    }
     let lens = if ctx.quick() { 40 } else { 120 };
     let sweep: Vec<Comp> = vec![Comp::Zlib(6, 0, 15, 8), Comp::Libdeflate(6), Comp::ZlibNg(2), Comp::Miniz(1)];
     e6_lensweep(ctx, "E6lenxE13", &sweep, &[1], lens, st, &mut g);
